@@ -39,6 +39,88 @@ theorem c25_none_iff (scripts : List (List UInt8)) :
       · split at h <;> cases h
   · intro h; simp [h]
 
+/-- **Script-level flaws.**  The payload of the first matching output is the concatenation of its
+data pushes; the first item after `OP_RETURN OP_13` that is not a data push decides the flaw:
+an opcode gives `opcode`, a script error (truncated push) gives `invalidScript`. -/
+theorem c25_script_flaw (pre : List (List UInt8)) (rest : List UInt8) (post : List (List UInt8))
+    (hpre : anyMagic pre = false) :
+    payload (pre ++ (OP_RETURN :: MAGIC_NUMBER :: rest) :: post)
+      = some (pushesResult (instructions rest)) := by
+  rw [payload_first pre rest post hpre, collectPushes_spec]
+
+/-- **Flaw order.**  Whatever `decipher` returns carries exactly the first violation in the
+documented order: script error / non-push opcode, bad varint, first message-structure error,
+supply overflow, unrecognized flag, unrecognized even tag (an even tag left after all recognised
+fields are taken); it is a runestone iff there is no violation. -/
+theorem c25_flaw_order (scripts : List (List UInt8)) (hn : scripts.length < 2 ^ 32)
+    (a : Artifact) (h : decipher scripts = .ok (some a)) :
+    a.flaw = specFlawWith leftoverEvenTag scripts
+    ∧ ((∃ r, a = .runestone r) ↔ specFlawWith leftoverEvenTag scripts = none) := by
+  have key : a.flaw = specFlawWith leftoverEvenTag scripts := by
+    unfold decipher at h
+    unfold specFlawWith
+    cases hp : payload scripts with
+    | none => rw [hp] at h; cases h
+    | some pl =>
+      rw [hp] at h
+      cases pl with
+      | invalid f => injection h with h; injection h with h; subst h; rfl
+      | valid p =>
+        simp only at h ⊢
+        cases hi : integers p with
+        | error e => rw [hi] at h; injection h with h; injection h with h; subst h; rfl
+        | ok ints =>
+          rw [hi] at h
+          simp only at h ⊢
+          cases ha : decipherInts scripts.length ints with
+          | ok a' =>
+            rw [ha] at h; injection h with h; injection h with h; subst h
+            exact (decipherInts_flaw _ hn ints _ ha).1
+          | err e => rw [ha] at h; cases h
+          | panic e => rw [ha] at h; cases h
+  refine ⟨key, ?_⟩
+  rw [← key]
+  constructor
+  · rintro ⟨r, rfl⟩; rfl
+  · intro hf
+    cases a with
+    | runestone r => exact ⟨r, rfl⟩
+    | cenotaph c =>
+      -- a cenotaph produced by `decipher` always records a flaw
+      exfalso
+      unfold decipher at h
+      split at h
+      · cases h
+      · cases h; cases hf
+      · split at h
+        · cases h; cases hf
+        · rename_i ints _
+          split at h
+          · rename_i a' ha
+            injection h with h; injection h with h; subst h
+            obtain ⟨es, he⟩ := decipherInts_ok scripts.length hn ints
+            rw [he] at ha; injection ha with ha
+            unfold decipherMsg at ha
+            dsimp only at ha
+            split at ha
+            · cases ha; cases hf
+            · cases ha
+          · cases h
+          · cases h
+
+/-- **A cenotaph keeps the etched name and the mint** (and so does a runestone): whenever the
+payload is readable, the artifact's rune name is the first `Rune` value if the etching flag is
+set, and its mint is the rune id formed by the first two `Mint` values if valid — independent of
+any flaw. -/
+theorem c25_keeps (scripts : List (List UInt8)) (hn : scripts.length < 2 ^ 32)
+    (p : List UInt8) (ints : List Nat) (hp : payload scripts = some (.valid p))
+    (hi : integers p = .ok ints) :
+    ∃ a, decipher scripts = .ok (some a) ∧ a.rune = specRune (fieldPairs ints)
+      ∧ a.mint = specMint (fieldPairs ints) := by
+  obtain ⟨es, he⟩ := decipherInts_ok scripts.length hn ints
+  have := decipherInts_flaw scripts.length hn ints _ he
+  exact ⟨_, by simp [decipher, hp, hi, he], this.2.1, this.2.2⟩
+
 example : anyMagic [[0x6a, 0x5d, 0x00], []] = true := by decide
 example : anyMagic [[0x6a], [0x6a, 0x01, 0x5d], [0x00, 0x14]] = false := by decide
 
